@@ -89,6 +89,11 @@ def gen_lint_program(rng, idx):
                 a = rng.choice(bs) if bs else "(%s)" % g.bool_expr(1) if rng.random() < 0.1 else rng.choice(["True", "False"])
                 op = rng.choice(["||", "&&"])
                 body.append("println(string_repr(%s %s %s %s %s))" % (a, op, g.bool_expr(1) if rng.random() < 0.5 else "True", op, a))
+            elif k == 6 and rng.random() < 0.08:
+                kinds.append("repeated-bool-assigning-middle")
+                q = "q%d" % len(kinds)
+                body.append("let %s = True" % q)
+                body.append("println(string_repr(%s && (if True { %s = False  True } else { True }) && %s))" % (q, q, q))
             elif k == 6:
                 kinds.append("repeated-bool-effectful")
                 op = rng.choice(["||", "&&"])
@@ -165,6 +170,38 @@ def statements(tree):
             block(it[4])
         elif it[0] == "expr":
             out.append((int(it[1][3]), int(it[1][4])))
+            walk(it[1])
+        elif it[0] == "blockitem":
+            block(it[1])
+    return out
+
+
+def blocks(tree):
+    """Every statement sequence (function body, nested block, match arm, closure body) as a list of nodes."""
+    out = []
+
+    def block(b):
+        out.append(list(b[3:]))
+        for e in b[3:]:
+            walk(e)
+
+    def walk(e):
+        for x in e[5:]:
+            if isinstance(x, list):
+                if x and x[0] == "block":
+                    block(x)
+                elif RC.is_expr(x):
+                    walk(x)
+                elif x and x[0] == "case":
+                    block(x[3])
+                elif x and x[0] not in ("params", "sym", "destr", "s", "hint"):
+                    for y in x:
+                        if RC.is_expr(y):
+                            walk(y)
+    for it in tree.items:
+        if it[0] == "fun":
+            block(it[4])
+        elif it[0] == "expr":
             walk(it[1])
         elif it[0] == "blockitem":
             block(it[1])
@@ -351,8 +388,10 @@ def run(ctx):
                 % (nprog, len(fixed_inputs)))
     ctx.cov["apply_fixes_variant"] = "skip-overlapping" if skip_variant else "original"
     r = ctx.garden_batch(["check " + hexs(s) for s in srcs] + ["fix " + hexs(s) for s in srcs] +
-                         ["astq " + hexs(s) for s in srcs] + [RC.run_line(s) for s in srcs])
-    chk, fx, astq, runs = r[:n], r[n:2 * n], r[2 * n:3 * n], r[3 * n:]
+                         ["astq " + hexs(s) for s in srcs] + [RC.run_line(s) for s in srcs] +
+                         ["astx " + hexs(s) for s in srcs])
+    chk, fx, astq, runs, astx = r[:n], r[n:2 * n], r[2 * n:3 * n], r[3 * n:4 * n], r[4 * n:]
+    schema_jobs = []          # (program, "lit" | "rb", text after applying only those fixes, ids)
     model_lines, model_idx = [], []
     hist, nfix_total, lint_hist = {}, 0, {}
     stage = {}
@@ -400,7 +439,27 @@ def run(ctx):
         stage[i] = (groups, fr[0])
         # FixCoversOnly for the unused-literal deletion: it touches no statement but the literal's own
         if astq[i] and astq[i].startswith("OK (astq 0"):
-            st = statements(RC.Tree(astq[i]))
+            tree_i = RC.Tree(astq[i])
+            # the program-level schema relations (Props/C22 whole-program theorems), one schema at a time
+            stmt = {}
+            for b in blocks(tree_i):
+                for k, e in enumerate(b):
+                    stmt[(int(e[3]), int(e[4]))] = (int(e[1]), e[0], k + 1 == len(b))
+            lit_ids, lit_fixes, lit_last = [], [], 0
+            for d in diags:
+                if d[3] and d[3][0][0] == "Remove unused value" and d[2] in stmt and stmt[d[2]][1] in ("int", "str"):
+                    if stmt[d[2]][2]:
+                        lit_last += 1        # last statement of a loop body: outside the relation
+                    else:
+                        lit_ids.append(stmt[d[2]][0])
+                        lit_fixes += d[3]
+            if lit_ids:
+                t = apply_subset(s, lit_fixes, True)
+                schema_jobs.append((i, "lit", t, lit_ids))
+            rbd = [d for d in diags if d[3] and d[3][0][0] == "Remove this duplicate"]
+            for d in rbd[:2]:
+                schema_jobs.append((i, "rb", apply_subset(s, d[3], True), []))
+            st = statements(tree_i)
             for d in diags:
                 (ds, de) = d[2]
                 for (desc, a, b, new) in d[3]:
@@ -414,6 +473,44 @@ def run(ctx):
                                      "the range of the deleting fix (%d..%d) covers another statement (%d..%d: %r)" % (
                                          a, b, x0, x1, s.encode()[x0:x1].decode()), fix_range=[a, b], **rep)
                             break
+    # ---- the whole-program schema theorems, per input: the driver evaluates the relations
+    sj = [j for j in schema_jobs if j[2] is not None]
+    ax2 = ctx.garden_batch(["astx " + hexs(j[2]) for j in sj])
+    lines = []
+    for (i, kind, t, ids), a2 in zip(sj, ax2):
+        a1 = astx[i]
+        if not (a1 and a1.startswith("OK (astx") and a2 and a2.startswith("OK (astx")):
+            lines.append("ping")
+        elif kind == "lit":
+            lines.append("litfix_check %d %s %s %s" % (len(ids), ",".join(str(x) for x in ids), a1[3:], a2[3:]))
+        else:
+            lines.append("rbfix_check %s %s" % (a1[3:], a2[3:]))
+    sr = ctx.model_batch(lines)
+    sch = {"lit_accepted": 0, "lit_closure_free": 0, "rb_accepted": 0, "rb_closure_free": 0,
+           "rb_shape_only_impure_chain": 0, "skipped_unparseable": 0}
+    for (i, kind, t, ids), x in zip(sj, sr):
+        if not x or "parse-error" in x or x == "OK pong":
+            sch["skipped_unparseable"] += 1
+            continue
+        if kind == "lit":
+            mm = re.match(r"^OK \(litfix (\d) (\d) (\d)\)$", x)
+            if mm and mm.group(1) == "1" and mm.group(2) == "1":
+                sch["lit_accepted"] += 1
+                sch["lit_closure_free"] += mm.group(3) == "1"
+            else:
+                ctx.disagree("litfix_check", {"src": srcs[i], "literal_nodes": ids, "after": t}, x,
+                             "unused-literal fixes applied")
+        else:
+            mm = re.match(r"^OK \(rbfix (1|0|shape-only) (\S+) (\d+) (\d+) (\d)\)$", x)
+            if mm and mm.group(1) == "1":
+                sch["rb_accepted"] += 1
+                sch["rb_closure_free"] += mm.group(5) == "1"
+            elif mm and mm.group(1) == "shape-only":
+                sch["rb_shape_only_impure_chain"] += 1
+            else:
+                ctx.disagree("rbfix_check", {"src": srcs[i], "after": t}, x, "repeated-operand fix applied")
+    ctx.cov["schema_validators"] = sch
+    ctx.log("schema validators: %s" % sch)
     # ---- the exact model of apply_fixes on the real fix lists
     mr = ctx.model_batch(model_lines)
     disj_bad = 0
